@@ -653,6 +653,8 @@ def run(rep):
     if crashes:
         rep.crash = crashes[0]
     from pgv.replayers import c03 as R03
+    for res in R03.stored_format_cases():
+        rep.add_bounded(f"{P}/bounded.{res['name']}", res['ok'], res['detail'], replay={'kind': 'c03.stored_format', 'name': res['name']})
     for res in R03.interpolation_cases():
         rep.add_bounded(f"{P}/bounded.{res['name']}", res['ok'], res['detail'], replay={'kind': 'c03.interpolation', 'name': res['name']})
     rep.shape_bounded = {'N': nmax, 'what': f'split_ads_data for n <= {nmax} symbolic pressures x 5 row labelings; '
